@@ -225,6 +225,10 @@ func (fc *FnCtx) trCall(st *State, call *ast.CallExpr) []Val {
 	if c := fc.w.cs.lookup(pkgPath, name); c != nil && !c.Extern {
 		if c.Opts["inline"] != "" {
 			if rs, ok := fc.inlineCall(st, call, fn, recvExpr, pkgPath, name); ok {
+				fc.setGhost(st, "called", fn, "", boolVal("true"))
+				for i, rv := range rs {
+					fc.setGhost(st, "ret", fn, fmt.Sprint(i), rv)
+				}
 				return rs
 			}
 		}
